@@ -205,12 +205,20 @@ def run(corrupt=None):
         """Every particle of every final swarm: the fixed-root density it carries must be the density of its tree
         under the concentration value that is current at that moment."""
         from phyclone.mcmc.particle_gibbs import ParticleGibbsTreeSampler as P
+        if not hasattr(P, "_sample_tree_from_swarm"):
+            found["unavailable"] = True
+            yield
+            return
         orig = P._sample_tree_from_swarm
 
         def sel(self, swarm):
-            td = self.kernel.tree_dist
-            for p_ in swarm.particles:
-                want, got = float(td.log_p_one(p_.tree)), float(p_.log_p_one)
+            try:
+                td = self.kernel.tree_dist
+                items = [(float(td.log_p_one(p_.tree)), float(p_.log_p_one)) for p_ in swarm.particles]
+            except AttributeError:      # the swarm / particle protocol changed: nothing to compare
+                items = []
+                found["unavailable"] = True
+            for want, got in items:
                 found["n"] += 1
                 if abs(want - got) > 1e-9 * (1 + abs(want)):
                     found["bad"].append((got, want, float(td.prior.alpha)))
@@ -232,6 +240,8 @@ def run(corrupt=None):
             ck.violation("C13|chain|exception", "chain aborted: %s" % res["error"], {"options": o})
             continue
         ck.evaluations += found["n"]
+        if found.get("unavailable"):
+            ck.note("particle densities could not be read from the final swarms (internal protocol changed): that part was skipped")
         if found["bad"]:
             g, w, a = found["bad"][0]
             ck.violation("C13|chain|stale_density", "%d of %d particles carry a fixed-root density that is not the density of their tree under the current concentration value (e.g. %.10g vs %.10g at alpha %.6g)" % (
